@@ -340,8 +340,11 @@ def check_C05(ctx):
     mism = run_tv(ctx, "TV_TypedCursor", recs, timeout=3000)
     def tagged_unit_with_text(rec, d):
         return any(e.get("k") == "S" and e.get("t") == "!U" and not (e.get("q") == "p" and e.get("v", "") in ("", "~", "null", "Null", "NULL")) for e in rec.get("raw", []))
+    def tag_on_mapping(rec, d):
+        return any(e.get("k") == "MS" and e.get("t", "").startswith("!") and not e.get("t", "").startswith("!!") for e in rec.get("raw", []))
     classify_mismatches(ctx, mism, recs, {"C04-kemn-key": lambda rec, d: has_kemn_key(rec.get("raw", [])),
-                                          "C05-tagged-unit-variant-ignores-text": tagged_unit_with_text},
+                                          "C05-tagged-unit-variant-ignores-text": tagged_unit_with_text,
+                                          "C05-tag-on-mapping-ignored": tag_on_mapping},
                         "typed result differs from TypedCursor!FaithfulDoc (reference interpreter on the parser's event stream)")
     return finish(ctx, "model_checking",
                   "cases: every alias-free document up to MaxEv events over field/variant names and scalars 1 x ~ true, enumerated by "
